@@ -73,6 +73,12 @@ def run(ctx):
         for _ in range(12 if tier == "thorough" else 4):
             cases.append(dict(version=rnd.choice([None, 1, 2, 7, 12]), level=rnd.randrange(4), mask=m, fit=True,
                               calls=[(gens.payload(rnd, rnd.choice(gens.KINDS), rnd.randrange(1, 60)), 20)], tag="explicit"))
+    for c in cases[::3]:
+        if c["version"] is not None:
+            c["prehistory"] = dict(style="resettings", version=rnd.choice([1, 2, 3, 7]), level=rnd.randrange(4), mask=None, data=b"")
+            c["fit"] = False if rnd.random() < 0.5 else c["fit"]
+    if tier != "thorough":
+        cases.append(dict(version=40, level=1, mask=None, fit=False, calls=[(gens.payload(rnd, "mixed", 900), 20)], tag="auto"))
     recs = enc.run_cases(cases, jobs=12 if tier == "thorough" else 4)
     sreq, idx = [], []
     for i, r in enumerate(recs):
